@@ -83,12 +83,26 @@ def all_streams():
     for size in (None, SIZE_LIMIT):
         for tail in (b'MAIL FROM:<s1@x>\r\nRCPT TO:<r10@y>\r\nDATA\r\nx\r\n.\r\nQUIT\r\n', b'NOOP\r\nQUIT\r\n', b'EHLO again\r\nMAIL FROM:<s1@x>\r\nQUIT\r\n'):
             out.append({'size': size, 'stream': b'EHLO c\r\nSTARTTLS\r\n' + tail, 'ntx': 1, 'desc': ['declined-starttls', b2s(tail)], 'decline': True})
+    # a challenge/response authentication with its answer (and more commands) already on the way when the challenge goes out
+    for tail in (b'NOOP\r\nQUIT\r\n', b'MAIL FROM:<s1@x>\r\nRCPT TO:<r10@y>\r\nDATA\r\nx\r\n.\r\nQUIT\r\n'):
+        for answer in (b'dXNlciAwMDAw\r\n', b'*\r\n'):
+            out.append({'size': None, 'stream': b'EHLO c\r\nAUTH CRAM-MD5\r\n' + answer + tail, 'ntx': 1,
+                        'desc': ['auth-challenge', b2s(answer), b2s(tail)], 'decline': 'auth'})
     return out
 
 
 def body_for(size, decline=False):
     def body(sock):
-        if decline:
+        if decline == 'auth':
+            # authentication offered; the challenge is made the same in every run
+            import email.utils
+            saved = email.utils.make_msgid
+            email.utils.make_msgid = lambda *a, **k: '<fixed@challenge.test>'
+            try:
+                trace, sent, end = run_server(sock, size_limit=size, auth=[b'CRAM-MD5', b'PLAIN'])
+            finally:
+                email.utils.make_msgid = saved
+        elif decline:
             # STARTTLS is offered, the application declines it (454): the session stays in clear text and goes on
             trace, sent, end = run_server(sock, size_limit=size, verdict=lambda name, args: '454' if name == 'STARTTLS' else None,
                                           context=FakeContext(False))
@@ -110,7 +124,7 @@ def judge(stream, size, outs, decline=False):
         # declined STARTTLS are answered
         if len(outs) != 1:
             a, b = sorted(outs, key=repr)[:2]
-            v.append(({'kind': 'segmentation-dependent', 'what': 'declined-starttls', 'size_limit': size is not None, 'toobig_involved': False},
+            v.append(({'kind': 'segmentation-dependent', 'what': 'auth-challenge' if decline == 'auth' else 'declined-starttls', 'size_limit': size is not None, 'toobig_involved': False},
                       '%d different outcomes for one stream; e.g. trace %r codes %r  VS  trace %r codes %r'
                       % (len(outs), a[0], reply_codes(a[1]), b[0], reply_codes(b[1]))))
         for o in sorted(outs, key=repr)[:1]:
